@@ -326,6 +326,16 @@ pub fn special_ext_tasks() -> Vec<ExtTask> {
         mk("p :- not q. q :- not p.", false, "{p}. q :- not p.", "output: p/0. output: q/0.", ""),
         mk("p. out(X) :- in(X), p.", false, "out(X) :- in(X).", "input: in/1. output: out/1. output: p/0.", ""),
         mk("spec: p. spec: q <-> p.", true, "p. q :- p.", "output: p/0. output: q/0.", ""),
+        // one symbol at several arities with different visibility (private/public/input), clashing private copies on both sides
+        mk("q(X) :- in(X). q(X,X) :- q(X).", false, "q(X) :- in(X). q(X,X) :- q(X).", "input: in/1. output: q/2.", ""),
+        mk("q(X) :- in(X), X > 0. q(X,X) :- q(X).", false, "q(X) :- in(X). q(X,X) :- q(X), X > 0.", "input: in/1. output: q/2.", ""),
+        mk("q(X) :- in(X), X > 0. q(X,X) :- q(X).", false, "q(X) :- in(X). q(X,X) :- q(X).", "input: in/1. output: q/2.", ""),
+        mk("q(X,X) :- in(X), X > 0. q(X) :- q(X,X).", false, "q(X,X) :- in(X). q(X) :- q(X,Y), Y > 0.", "input: in/1. output: q/1.", ""),
+        mk("out :- in(X), X > 0. out(X) :- in(X), out.", false, "out :- in(X), not X <= 0. out(X) :- in(X), out.", "input: in/1. output: out/1.", ""),
+        mk("out :- in(X). out(X) :- in(X), not out.", false, "out(X) :- in(X), X != X.", "input: in/1. output: out/1.", ""),
+        mk("in(X,X) :- in(X). out(X) :- in(X,X).", false, "out(X) :- in(X). in(X,Y) :- in(X), in(Y).", "input: in/1. output: out/1.", ""),
+        mk("spec: forall X (q(X,X) <-> in(X)). spec: forall X Y (q(X,Y) -> X = Y).", true, "q(X) :- in(X). q(X,X) :- q(X).", "input: in/1. output: q/2.", ""),
+        mk("q(X) :- in(X). out(X) :- q(X).", false, "q(X) :- in(X). q :- q(X). out(X) :- q(X), q.", "input: in/1. output: out/1.", "lemma: forall X (q(X) -> in(X))."),
     ]
 }
 
